@@ -26,6 +26,32 @@ TRUSTED = ["clang 14 AST/CFG and call graph (direct calls + virtual overriders)"
 ASSUMPTIONS = ["database loads are triggered only through InterrogateDatabase::check_latest (R13.1)"]
 
 
+def _cycle_pos(fn, e, vec):
+    """('front', k) for vec[k] / vec.front() / vec.at(k); ('back', k) for vec.back() / vec[vec.size()-1-k]."""
+    e = strip_casts(e)
+    if e is None or vec is None or e.get("k") != "call":
+        return None
+    name = callee_short(e)
+    if name in ("front", "back") and "this" in e and (local_ref(e["this"]) or {}).get("d") == vec.get("d"):
+        return (name, 0)
+    ix = cont = None
+    if name == "operator[]" and len(e.get("a", [])) == 2:
+        cont, ix = e["a"][0], e["a"][1]
+    elif name == "at" and "this" in e and e.get("a"):
+        cont, ix = e["this"], e["a"][0]
+    if cont is None or (local_ref(cont) or {}).get("d") != vec.get("d"):
+        return None
+    k = const_int(ix)
+    if k is not None and k >= 0:
+        return ("front", k)
+    ixs = strip_casts(ix)
+    if ixs is not None and ixs.get("k") == "bin" and ixs.get("op") == "-":
+        l, r = strip_casts(ixs["x"]), const_int(ixs["y"])
+        if l is not None and l.get("k") == "call" and callee_short(l) == "size" and (local_ref(l.get("this")) or {}).get("d") == vec.get("d") and r is not None and r >= 1:
+            return ("back", r - 1)
+    return None
+
+
 def run(ctx):
     db = ctx.db
     ctx.rule("R16.1", "the interrogate_error_flag() test post-dominates every load-triggering call; its true edge unlinks the output and exits non-zero")
@@ -179,6 +205,19 @@ def run(ctx):
             noadd = G.edges_where(fw, lambda atom, truth: (local_ref(atom) or {}).get("d") in aa and not truth)
             ok = G.gated(fw, e, cyc) and G.gated(fw, e, noadd)
             why = "on the reported-cycle branch (no library could be added and a cycle was found)" if ok else "neither an emitted library nor the reported-cycle branch"
+            if ok:
+                # only an edge of the cycle just found may be given up: any other edge is a satisfiable constraint
+                cyc_calls = [c for c in fw.walk() if c.get("k") == "call" and callee_short(c) == "find_dependency_cycle"]
+                cyc_vec = local_ref(cyc_calls[0]["a"][0]) if cyc_calls and cyc_calls[0].get("a") else None
+                subj = peel(e["this"])
+                src = _cycle_pos(fw, peel(subj["a"][1]), cyc_vec) if (subj is not None and subj.get("k") == "call" and callee_short(subj) == "operator[]" and len(subj.get("a", [])) == 2) else None
+                dst = _cycle_pos(fw, peel(e["a"][0]), cyc_vec) if e.get("a") else None
+                dep_map = local_ref(cyc_calls[0]["a"][1]) if cyc_calls and len(cyc_calls[0].get("a", [])) > 1 else None
+                same_map = src is not None and dep_map is not None and (local_ref(subj["a"][0]) or {}).get("d") == dep_map.get("d")
+                on_cycle = (same_map and src is not None and dst is not None and src[0] == dst[0]
+                            and ((src[0] == "front" and dst[1] == src[1] + 1) or (src[0] == "back" and src[1] == dst[1] + 1)))
+                ctx.ob("R16.2", "erase#%d|edge-of-the-reported-cycle" % i, on_cycle, fw.loc(e),
+                       "%s gives up %s" % (show(e), "the edge cycle[i] -> cycle[i+1] of the cycle just found" if on_cycle else "an edge that is not (recognisably) consecutive elements of the cycle just found"))
         ctx.ob("R16.2", "erase#%d" % i, ok, fw.loc(e), "%s: %s" % (show(e), why))
     # emission loops
     n_em = 0
